@@ -198,6 +198,49 @@ let run_main () =
   if !modeldiff >= 0 then P.printf "MODELDIFF %d\n" !modeldiff
 
 
+(* ---- c02iorun <bin> <maxsteps>: the run of the simulator MODEL against the device model of hexsimio.hpp (SimIO.v:
+   one stream per file index, bound at first use to the direction of that use).  Prints what the real hexsim leaves
+   behind: END <how> rc=<status>, OUT <console bytes>, FILE <k> <bytes of simout<k>> ---- *)
+let iorun_main () =
+  let bin = Sys.argv.(2) in
+  let max_steps = int_of_string Sys.argv.(3) in
+  let file = read_file bin in
+  let fbytes = SL.init (Stdlib.String.length file) (fun i -> zi (Char.code (Stdlib.String.get file i))) in
+  let words = match Loader.load_file fbytes with
+    | Some (ws, _) -> ws
+    | None -> P.printf "END loadreject rc=1\nOUT 0\n"; exit 0 in
+  let cons = let b = Buffer.create 64 in (try while true do Buffer.add_channel b stdin 1 done with End_of_file -> ()); Buffer.contents b in
+  let file_bytes (k : int) : BinNums.coq_Z list =
+    let name = P.sprintf "simin%d" k in
+    if Sys.file_exists name then (let f = read_file name in SL.init (Stdlib.String.length f) (fun i -> zi (Char.code (Stdlib.String.get f i)))) else [] in
+  let ftab = Array.init 8 file_bytes in
+  let inp0 = { Isa.console = SL.init (Stdlib.String.length cons) (fun i -> zi (Char.code (Stdlib.String.get cons i)));
+               Isa.files = (fun g -> let i = iz g in if i >= 0 && i < 8 then ftab.(i) else []) } in
+  let sm = ref (SimModel.init (fun _ -> zi 0) (zi 0) words) in
+  let dv = ref (SimIO.dev0 inp0) in
+  let steps = ref 0 and fin = ref "" and rc = ref 0 in
+  while !fin = "" do
+    if not (!sm).SimModel.s_running then (fin := "exit"; rc := iz (!sm).SimModel.s_exit) else
+    if !steps >= max_steps then fin := "cut" else
+    match SimIO.step_dev !sm !dv with
+    | SimModel.SOk ((m', d'), _) -> sm := m'; dv := d'; incr steps
+    | SimModel.SThrow _ -> fin := "throw"; rc := 1
+    | SimModel.SUB _ -> fin := "ub"
+  done;
+  P.printf "END %s rc=%d steps=%d\n" !fin !rc !steps;
+  let co = SL.rev (!dv).SimIO.d_cout in
+  P.printf "OUT %d%s\n" (SL.length co) (Stdlib.String.concat "" (SL.map (fun b -> P.sprintf " %d" (iz b)) co));
+  for k = 0 to 7 do
+    let fo = SL.rev ((!dv).SimIO.d_fout (zi k)) in
+    if fo <> [] then P.printf "FILE %d%s\n" k (Stdlib.String.concat "" (SL.map (fun b -> P.sprintf " %d" (iz b)) fo))
+  done;
+  (* files that were opened for output exist even when nothing could be written to them *)
+  for k = 0 to 7 do
+    match (!dv).SimIO.d_bind (zi k) with
+    | SimIO.BOut -> P.printf "OPENED %d\n" k
+    | _ -> ()
+  done
+
 (* ---- c15trace <bin> <maxsteps>: the leading columns of every trace line according to the ISA run and the
    symbol table found in the binary (SimModel.trace_symbol): "n pc sym+off|- OPC nib" ---- *)
 let parse_symtab (file : string) : (string * int) list =
